@@ -443,7 +443,7 @@ func runC20(e *hk.Env) error {
 	os.Setenv(envLife, "20s")
 	os.Setenv(envBase, base)
 	self := os.Getpid()
-	cases, viols, groups, leakedTotal, notSurvived, hookMissing, timeouts := 0, 0, 0, 0, 0, 0, 0
+	cases, viols, groups, leakedTotal, notSurvived, hookMissing, timeouts, expectedFailures := 0, 0, 0, 0, 0, 0, 0, 0
 	hookDetail := ""
 	classHist := map[string]int{}
 	ppidHist := map[string]int{}
@@ -460,7 +460,7 @@ func runC20(e *hk.Env) error {
 	for _, pause := range pauses {
 		for _, delay := range delays {
 			for _, n := range conc {
-				scenarios = append(scenarios, scenario{delay, pause, n, "none"})
+				scenarios = append(scenarios, scenario{delay, pause, n, "none", false})
 			}
 		}
 	}
@@ -468,9 +468,9 @@ func runC20(e *hk.Env) error {
 		// slow daemons: a launcher that stops waiting after a grace period returns before Done(). Quick reaches 1 s,
 		// thorough 4.5 s; a grace timer longer than the longest delay tested is only caught by the extracted action list.
 		for _, n := range conc[:min(2, len(conc))] {
-			scenarios = append(scenarios, scenario{1000, 0, n, "none"})
+			scenarios = append(scenarios, scenario{1000, 0, n, "none", false})
 			if e.Thorough() {
-				scenarios = append(scenarios, scenario{4500, 0, n, "none"})
+				scenarios = append(scenarios, scenario{4500, 0, n, "none", false})
 			}
 		}
 		// handlers that scrub their environment before Done(), and daemons that die before Done()
@@ -488,7 +488,7 @@ func runC20(e *hk.Env) error {
 		}
 		// many overlapping launches under two names: state shared between Launch calls shows as a wrong handler
 		for k := 0; k < stress; k++ {
-			scenarios = append(scenarios, scenario{0, 0, 8, "none"})
+			scenarios = append(scenarios, scenario{0, 0, 8, "none", false})
 		}
 	}
 	// the stderr variants on the two extreme timings (thorough: on every timing)
@@ -497,15 +497,15 @@ func runC20(e *hk.Env) error {
 			for _, pause := range pauses {
 				for _, delay := range delays {
 					for _, n := range conc {
-						scenarios = append(scenarios, scenario{delay, pause, n, v})
+						scenarios = append(scenarios, scenario{delay, pause, n, v, false})
 					}
 				}
 			}
 			continue
 		}
 		for _, n := range conc {
-			scenarios = append(scenarios, scenario{delays[0], pauses[0], n, v})
-			scenarios = append(scenarios, scenario{delays[len(delays)/2], pauses[len(pauses)-1], n, v})
+			scenarios = append(scenarios, scenario{delays[0], pauses[0], n, v, false})
+			scenarios = append(scenarios, scenario{delays[len(delays)/2], pauses[len(pauses)-1], n, v, false})
 		}
 	}
 
@@ -549,6 +549,41 @@ func runC20(e *hk.Env) error {
 				time.Sleep(10 * time.Millisecond)
 			}
 		}
+		for i := range g.obs {
+			o := &g.obs[i]
+			if o.err == nil && o.pid > 0 {
+				if b, err := os.ReadFile(filepath.Join(g.dir, fmt.Sprintf("done.%d", o.pid))); err == nil {
+					f := strings.SplitN(strings.TrimSpace(string(b)), " ", 2)
+					o.doneNil = len(f) == 2 && f[1] == "ok"
+					if !o.doneNil && len(f) == 2 {
+						o.stateLater += " Done()=" + strconv.Quote(f[1])
+					}
+				}
+			}
+		}
+		if expectFail(g.sc.variant) {
+			// the daemon died before Done(): Launch must say so (an error, pid 0) and nothing of it may be running
+			left := groupPids(g.dir)
+			for i, o := range g.obs {
+				cases++
+				expectedFailures++
+				classHist["expected-failure:"+o.class]++
+				variantHist[g.sc.variant]++
+				errText := ""
+				if o.err != nil {
+					errText = o.err.Error()
+				}
+				e.Case("F", g.sc.variant, strconv.Itoa(g.sc.n), strconv.Itoa(i), o.class, strconv.Itoa(o.pid), strconv.Itoa(len(left)), hk.Hxs(errText))
+				if o.err == nil || o.pid != 0 || o.timedOut || len(left) > 0 {
+					viols++
+					e.Case("VIOL", "daemon_dies_before_done="+g.sc.variant, fmt.Sprintf("n=%d", g.sc.n), fmt.Sprintf("i=%d", i),
+						fmt.Sprintf("err=%q", errText), fmt.Sprintf("pid=%d", o.pid), fmt.Sprintf("daemons_running=%v", left),
+						"expected: an error and pid 0")
+				}
+			}
+			killAndWait(append(groupPids(g.dir), childrenOf(self)...))
+			return
+		}
 		for i, o := range g.obs {
 			cases++
 			classHist[o.class]++
@@ -568,15 +603,16 @@ func runC20(e *hk.Env) error {
 			}
 			e.Case("E", strconv.Itoa(g.sc.delay), strconv.Itoa(g.sc.pause), strconv.Itoa(g.sc.n), strconv.Itoa(i), o.class,
 				b01(o.pidMatches), b01(o.marker), b01(o.alive), b01(o.reparented), b01(g.gone), b01(o.doneAtRet), b01(o.rightH),
-				b01(o.survived), g.sc.variant, hk.Hxs(errText))
-			good := o.err == nil && o.pidMatches && o.marker && o.alive && o.reparented && g.gone && o.doneAtRet && o.rightH && o.survived
+				b01(o.doneNil), b01(o.survived), g.sc.variant, hk.Hxs(errText))
+			good := o.err == nil && o.pidMatches && o.marker && o.alive && o.reparented && g.gone && o.doneAtRet && o.rightH && o.doneNil && o.survived
 			if !good {
 				viols++
 				e.Case("VIOL", fmt.Sprintf("delay=%dms", g.sc.delay), fmt.Sprintf("pause=%dms", g.sc.pause), fmt.Sprintf("n=%d", g.sc.n),
 					"daemon_stderr="+g.sc.variant, fmt.Sprintf("i=%d", i), fmt.Sprintf("err=%q", errText), fmt.Sprintf("pid=%d", o.pid),
 					"pid_matches="+b01(o.pidMatches), "marker_at_return="+b01(o.marker), "alive_at_return="+b01(o.alive),
 					fmt.Sprintf("ppid=%d", o.ppid), "launcher_gone="+b01(g.gone), "done_entered_at_return="+b01(o.doneAtRet),
-					"asked="+o.name, "runs="+o.ranHandler, "right_handler_and_distinct_pid="+b01(o.rightH),
+					"asked="+o.name, "runs="+o.ranHandler, "right_handler_and_distinct_pid="+b01(o.rightH), "done_returned_nil="+b01(o.doneNil),
+					"sequence_step="+b01(g.sc.direct),
 					fmt.Sprintf("survived_%dms_after_return=%s", surviveWait.Milliseconds(), b01(o.survived)), "state_later="+o.stateLater,
 					fmt.Sprintf("daemons_running_unclaimed=%v", g.leaked))
 			}
@@ -622,8 +658,16 @@ func runC20(e *hk.Env) error {
 				os.Unsetenv(envPause)
 			}
 			g.obs = make([]launchObs, sc.n)
+			limit := time.Duration(sc.delay+sc.pause)*time.Millisecond + 3*time.Second
 			var wg sync.WaitGroup
-			for i := 0; i < sc.n; i++ {
+			if sc.direct {
+				name := handlerA
+				if groups%2 == 1 {
+					name = handlerB
+				}
+				g.obs[0] = oneLaunch(g.dir, name, limit, true)
+			}
+			for i := 0; i < sc.n && !sc.direct; i++ {
 				wg.Add(1)
 				go func(i int) {
 					defer wg.Done()
@@ -631,7 +675,7 @@ func runC20(e *hk.Env) error {
 					if (i+groups)%2 == 1 {
 						name = handlerB
 					}
-					g.obs[i] = oneLaunch(g.dir, name, time.Duration(sc.delay+sc.pause)*time.Millisecond+3*time.Second)
+					g.obs[i] = oneLaunch(g.dir, name, limit, false)
 				}(i)
 			}
 			wg.Wait()
@@ -670,7 +714,7 @@ func runC20(e *hk.Env) error {
 					nFailed++
 				}
 			}
-			if nFailed > 0 {
+			if nFailed > 0 && !expectFail(sc.variant) {
 				// a failed Launch's daemon may still be on its way to the marker: give it a moment before counting
 				time.Sleep(time.Duration(sc.delay+150) * time.Millisecond)
 				leakedMarkers := 0
@@ -719,6 +763,7 @@ func runC20(e *hk.Env) error {
 	e.Stats["distinct_nontrivial"] = len(scenarios) - max(0, stress-1)
 	e.Stats["launch_timeouts"] = timeouts
 	e.Stats["hook_missing"] = hookMissing
+	e.Stats["expected_failures_checked"] = expectedFailures
 	if hookMissing > 0 {
 		return fmt.Errorf("hook missing: forced schedule not achieved (%s, %d launches): the verifPause(\"launch.afterStart\") call right after cmd.Start() in daemon.launch is gone or no longer pauses", hookDetail, hookMissing)
 	}
